@@ -17,6 +17,61 @@ CHECKS = {
              "bits. Exhaustive below 9 bits, sampled above; appropriate because the property is a pure function law.",
         note="Trusts the harness's list-of-bits model and Python int arithmetic; negative indices, __setitem__, "
              "from_sequence and int right-operands are outside the stated property and not asserted."),
+    "C14": dict(
+        category="exploration", design="DESIGN.md §3 C14",
+        technique="property-based testing: round-trip + length law + freshness + independent AES-CBC/PKCS7 reference; every "
+                  "message length 0..80 enumerated, Hypothesis for random lengths and contract breaches",
+        text="Every message length 0..80 for the three key lengths (several keys each) plus Hypothesis-generated keys, messages "
+             "up to 5000 bytes and contract-breach cases are run through Encrypt/Decrypt under a seeded non-repeating DRBG; "
+             "round-trip, the length law, IV/ciphertext freshness, wrong-key behaviour and agreement with an independent "
+             "decryption are asserted, and every declared-length breach must raise ValueError.",
+        note="Trusts the cryptography package's AES/CBC/PKCS7 as reference; freshness is a necessary-condition check on bytes."),
+    "C15": dict(
+        category="exploration", design="DESIGN.md §3 C15",
+        technique="exhaustive bijection/inverse enumeration for n in 2..12 per sampled key, Hypothesis for n up to 2100 bits, "
+                  "differential test of the byte PRPs against an independent Feistel, atheris stage in thorough",
+        text="For each sampled key (6 quick / 16 thorough, key lengths 0..64) all 8188 points of n=2..12 are enumerated: image "
+             "equals the domain, both inverse directions hold, BitwiseFPEPRP agrees with the cipher. Random n up to 2100 (odd, "
+             "around multiples of 160) check length preservation and inverses; byte Luby-Rackoff PRPs are compared with an "
+             "independent 3-round Feistel + inverse network, all 65536 two-byte messages exhaustively per sampled key; wrong "
+             "lengths must raise ValueError. Exhaustive for the sampled keys only.",
+        note="Trusts hmac/hashlib as base of the reference Feistel; keys are sampled, not enumerated."),
+    "C16": dict(
+        category="exploration", design="DESIGN.md §3 C16",
+        technique="differential property-based testing against an independent RFC 5246 P_hash / counter-mode / XOF reference; "
+                  "all output lengths 1..200 enumerated per digest, Hypothesis beyond, atheris stage in thorough",
+        text="HmacPRF over sha1/sha256/sha512/md5 and the hash wrapper over those plus shake_128/256 are compared byte for byte "
+             "with an independent reference for every output length 1..200 on short inputs and for Hypothesis-generated "
+             "keys (0..80), messages (0..200) and lengths up to 2000; exact length, determinism, pairwise distinctness on "
+             "sampled sets and ValueError on contract breaches and unknown names are asserted.",
+        note="Trusts hmac/hashlib; digest names are the spellings the schemes' configurations use."),
+    "C17": dict(
+        category="exploration", design="DESIGN.md §3 C17",
+        technique="round-trip property-based testing (Hypothesis + explicit (id size x capacity) grid sweep), atheris stage in "
+                  "thorough",
+        text="partition/parse of identifier blocks is round-tripped through both parsers over an (id size x capacity) grid "
+             "(8x8 quick, complete 40x70 thorough) with list lengths around multiples of the capacity and 4 block sizes, and on "
+             "Hypothesis-generated lists up to 300 ids incl. ids with leading/trailing zero bytes; split/join, int<->bytes at any "
+             "width, add_leading_zeros, xor laws, hex/int/utf8 views, JSON database conversion and chunks are checked by "
+             "round-trip / model; mismatching inputs must raise ValueError.",
+        note="Identifiers are non-zero and of exactly the stated size; length vectors have entries >= 1."),
+    "C19": dict(
+        category="exploration", design="DESIGN.md §3 C19",
+        technique="model-based testing of generated operation histories (Hypothesis-generated op lists interpreted against a "
+                  "list-of-padded-items reference model, directory invariant after every step)",
+        text="2400 (quick) / 48000 (thorough) generated histories of up to 25 / 40 operations over arrays with 1..40 items, item "
+             "size 1..9 and every chunk size 1..len+2 are executed against SPFLBArray and a list model; every observation, a "
+             "full read after every failing operation, use-after-close, reopen durability and the set of files in the array's "
+             "directory are compared after each step.",
+        note="A refusal is any raised exception; scratch directories are private to a case."),
+    "C20": dict(
+        category="exploration", design="DESIGN.md §3 C20",
+        technique="model-based testing of generated operation histories against a dict reference model",
+        text="Generated histories (up to 30 / 50 steps, 6-key universe) over PickledDict (full life cycle incl. close/open, "
+             "use-after-close, create-over-existing, open-missing, from_dict independence) and DBMDict (one open session, "
+             "use-after-close at the end) are compared with a plain dict after every step.",
+        note="Only dbm.dumb exists here, so DBMDict reopen/path errors are outside the stated scope; bytearray aliasing is "
+             "not asserted."),
 }
 
 NOT_YET = "check not built yet (build in progress)"
@@ -64,7 +119,6 @@ def main():
     with open(os.path.join(HERE, "MANIFEST.json"), "w") as f:
         json.dump(m, f, indent=1)
         f.write("\n")
-    import jsonschema  # noqa
     return m
 
 
